@@ -2,6 +2,8 @@ package compose
 
 import (
 	"context"
+
+	"github.com/cloudwego/eino/schema"
 )
 
 // C16: call options reach exactly the nodes they address.
@@ -304,4 +306,80 @@ func VerifC16Resume() {
 		got = append(got, x)
 	}
 	vassert(len(got) == 2 && got[0].id == 1 && got[0].val == v1 && got[1].id == 2 && got[1].val == v2, "a node restarted from the checkpoint receives the global and the designated option of the resuming call")
+}
+
+// a node fed through an input key receives its options in every paradigm
+func VerifC16InputKey() {
+	ctx := context.Background()
+	vcfg("fifo", 1)
+	var rec []c16Recv
+	g := NewGraph[map[string]any, map[string]any]()
+	_ = g.AddLambdaNode("L1", InvokableLambdaWithOption(func(ctx context.Context, in int, opts ...c16OptA) (map[string]any, error) {
+		for _, o := range opts {
+			rec = append(rec, c16Recv{"L1", o.id, o.val})
+		}
+		return map[string]any{"o": in}, nil
+	}), WithInputKey("k"))
+	_ = g.AddEdge(START, "L1")
+	_ = g.AddEdge("L1", END)
+	r, err := g.Compile(ctx)
+	vassert(err == nil, "graph compiles")
+	v1, v2 := vsymInt("v1"), vsymInt("v2")
+	opts := []Option{WithLambdaOption(c16OptA{1, v1}), WithLambdaOption(c16OptA{2, v2}).DesignateNode("L1")}
+	in := map[string]any{"k": vsymInt("x")}
+	switch vchoose("paradigm", 3) {
+	case 0:
+		_, err = r.Invoke(ctx, in, opts...)
+	case 1:
+		sr, e := r.Stream(ctx, in, opts...)
+		err = e
+		if e == nil {
+			_, err = vDrainMap(sr)
+		}
+	case 2:
+		sr, e := r.Transform(ctx, schema.StreamReaderFromArray([]map[string]any{in}), opts...)
+		err = e
+		if e == nil {
+			_, err = vDrainMap(sr)
+		}
+	}
+	vassert(err == nil, "run succeeds")
+	vassert(len(rec) == 2 && rec[0].id == 1 && rec[0].val == v1 && rec[1].id == 2 && rec[1].val == v2, "a node with an input key receives the options addressed to it, in every paradigm")
+}
+
+// callbacks designated to an unknown node are an error like any other option
+func VerifC16CallbackUnknown() {
+	ctx := context.Background()
+	vcfg("fifo", 1)
+	var evs []c10Ev
+	sub := NewGraph[map[string]any, map[string]any]()
+	_ = sub.AddLambdaNode("L2", vNode("L2", nil))
+	_ = sub.AddEdge(START, "L2")
+	_ = sub.AddEdge("L2", END)
+	g := NewGraph[map[string]any, map[string]any]()
+	_ = g.AddLambdaNode("a", vNode("a", nil))
+	_ = g.AddGraphNode("sub", sub)
+	_ = g.AddEdge(START, "a")
+	_ = g.AddEdge("a", "sub")
+	_ = g.AddEdge("sub", END)
+	r, err := g.Compile(ctx)
+	vassert(err == nil, "graph compiles")
+	var opt Option
+	where := vchoose("where", 4)
+	switch where {
+	case 0:
+		opt = WithCallbacks(&c10Rec{id: "h", evs: &evs}).DesignateNode("a")
+	case 1:
+		opt = WithCallbacks(&c10Rec{id: "h", evs: &evs}).DesignateNode("typo")
+	case 2:
+		opt = WithCallbacks(&c10Rec{id: "h", evs: &evs}).DesignateNodeWithPath(NewNodePath("sub", "typo"))
+	case 3:
+		opt = WithCallbacks(&c10Rec{id: "h", evs: &evs}).DesignateNode("a", "typo")
+	}
+	_, rerr := r.Invoke(ctx, map[string]any{"in": vsymInt("x")}, opt)
+	if where == 0 {
+		vassert(rerr == nil, "a callback designated to an existing node is accepted")
+	} else {
+		vassert(rerr != nil, "a callback designated to an unknown node (also below a nested graph, or next to a valid key) is an error")
+	}
 }
